@@ -774,20 +774,21 @@ def _unjson(x):
 
 def replay(ctx, data):
     import ast
+    import vlib
     rc = 0
     for f in data.get("fails", []):
         print(f["kind"], f["detail"][:400])
         try:
             c = _unjson(f["data"])
             if "comps" not in c:
-                print(" replay on /repo: oracle self-test ->", oracle_selftest())
+                print(" replay on %s: oracle self-test ->" % vlib.REPO, oracle_selftest())
                 rc |= not oracle_selftest()
                 continue
             c["comps"] = [({int(k): v for k, v in d.items()}, b, a, e) for d, b, a, e in c["comps"]]
             if c.get("cfg") is not None:
                 c["cfg"] = {ast.literal_eval(k): v for k, v in c["cfg"].items()}
             v = run_case(c)
-            print(" replay on /repo:", v)
+            print(" replay on %s:" % vlib.REPO, v)
             rc |= bool(v)
         except Exception as e:   # noqa
             print(" cannot replay:", repr(e))
